@@ -1,4 +1,5 @@
 import FFVerif.Props.C04
+import FFVerif.Pins.pinConcatenatePeriodic
 #print axioms FFVerif.C04.geom_series_solve
 #print axioms FFVerif.C04.fallback_sum
 #print axioms FFVerif.C04.periodic_eq_repetition_sum
@@ -7,3 +8,4 @@ import FFVerif.Props.C04
 #print axioms FFVerif.C04.accumulate_replicate
 #print axioms FFVerif.C04.periodicFallback_eq
 #print axioms FFVerif.C04.periodicS_eq_geomSum
+#print axioms FFVerif.Pins.pinConcatenatePeriodic
